@@ -200,6 +200,58 @@ def conduit_rules(ctx, c, cfg):
         for b, cl in callers_by_name(c, "write", self_adt=COND):
             r.check(b is pw or b.defpath == pw.defpath, "Conduit::write/caller/" + owner_def(b), cl.loc(), "Conduit::write called only from poll_write", "Conduit::write has another caller")
 
+    with ctx.rule("C12.R8" + sfx, "T3+T4", "read side of the data path: the bytes taken out of Conduit.data are exactly the bytes appended to the reader's buffer", floor=4) as r:
+        SHRINK = ("advance", "split_to", "split_off", "truncate", "clear", "copy_to_slice", "copy_to_bytes", "get_u8", "take", "split", "freeze", "set_len")
+        shr = [(b, x) for b in c.all_bodies() for x in calls_on_field(b, COND, "data") if x.via_name in SHRINK]
+        if not shr:
+            raise AnchorMissing("no call removes bytes from Conduit.data")
+        for b, x in shr:
+            ctx.saw(b)
+            inr = b.meta.get("name") == "read" and _suffix_match(b.meta.get("self_adt"), COND)
+            r.check(inr and x.via_name in ("advance", "copy_to_slice", "split_to"), "data-removal/%s::%s" % (b.meta.get("name"), x.via_name), x.loc(), "bytes leave data only in Conduit::read, from the front",
+                    "bytes are removed from the channel's buffer in %s via %s: they are lost to the reader, or taken from the wrong end" % (b.defpath, x.via_name))
+        # the reader's ReadBuf is only ever appended to: put_slice / (initialize_unfilled*, advance); an absolute position (set_filled, clear) discards
+        # what an earlier poll_read already delivered into the same buffer (read_exact, read_buf loops)
+        rb = [(b, x) for b in c.all_bodies() if "::tests" not in b.defpath for x in b.calls if (x.self_adt or "").endswith("read_buf::ReadBuf")]
+        for b, x in rb:
+            if x.name in ("set_filled", "clear", "assume_init", "take", "unfilled_mut", "inner_mut"):
+                r.bad("ReadBuf/%s::%s" % (b.meta.get("name"), x.name), x.loc(), "the reader's buffer is repositioned with %s: bytes a previous poll_read put there are dropped or garbage is exposed, so the bytes read are no longer a prefix of the bytes written" % x.name)
+        r.check(bool(rb), "ReadBuf/append-only", "-", "%d ReadBuf calls, none repositions the filled mark" % len(rb))
+        rd = ctx.saw(c.fn(name="read", self_adt=COND))
+        def amount(x):
+            # the local that says how many bytes this call moves
+            if x.name in ("advance", "split_to", "initialize_unfilled_to"):
+                return rd.copy_root(x.args[1])
+            if x.name in ("put_slice", "copy_to_slice"):
+                d = describe_operand(rd, x.args[1])
+                if "RangeTo" in d:
+                    for a in aggregates(rd, "core::ops::range::RangeTo"):
+                        return rd.copy_root(a[2][0])
+                for y in rd.calls:
+                    if y.name == "initialize_unfilled_to" and "initialize_unfilled_to(" in d:
+                        return rd.copy_root(y.args[1])
+            return None
+        put = [x for x in rd.calls if (x.self_adt or "").endswith("read_buf::ReadBuf") and x.name in ("put_slice", "advance")]
+        take = [x for b, x in shr if b.defpath == rd.defpath]
+        r.check(len(put) == 1 and len(take) == 1, "read/one-append-one-removal", where(rd), "Conduit::read appends once to the reader's buffer and removes once from data", "Conduit::read: %d appends, %d removals" % (len(put), len(take)))
+        if len(put) == 1 and len(take) == 1:
+            a1, a2 = amount(put[0]), amount(take[0])
+            cnt = [i for i in range(1, rd.argc + 1) if rd.locals[i] == "usize"]
+            r.check(a1 is not None and a1 == a2 and a1 in cnt, "read/appended=removed=count", put[0].loc(), "the number of bytes appended, the number removed and the `count` argument are the same value",
+                    "Conduit::read appends %s bytes but removes %s: bytes are duplicated or skipped" % (describe_operand(rd, ["c", [a1, []]]) if a1 else "?", describe_operand(rd, ["c", [a2, []]]) if a2 else "?"))
+            if put[0].name == "put_slice":
+                d = describe_operand(rd, put[0].args[1])
+                r.check(d.startswith("index(") and ".data" in d and "RangeTo" in d, "read/appended-is-front-of-data", put[0].loc(), "what is appended is data[..count] (%s)" % d[:60], "what is appended is %s, not the front of data" % d[:80])
+        pr = ctx.saw(c.fn(name="poll_read", self_adt=COND))
+        rc = [x for x in pr.calls if x.is_method(COND, "read")]
+        if len(rc) != 1:
+            raise AnchorMissing("poll_read: expected one Conduit::read call, found %d" % len(rc))
+        d = describe_operand(pr, rc[0].args[2])
+        r.check(d.startswith("min(") and "remaining(" in d and ".data" in d and d.count("remaining(") == 2, "poll_read/count=min(data.remaining,buf.remaining)", rc[0].loc(), "count = %s" % d[:80],
+                "the number of bytes moved is %s, not min(data.remaining(), buf.remaining())" % d[:80])
+        for b, cl in callers_by_name(c, "read", self_adt=COND):
+            r.check(b.defpath == pr.defpath, "Conduit::read/caller/" + owner_def(b), cl.loc(), "Conduit::read called only from poll_read", "Conduit::read has another caller")
+
     with ctx.rule("C12.R5" + sfx, "T6", "poll_read delivers remaining bytes before end-of-stream; poll_write fails first when closed", floor=2) as r:
         pr = c.fn(name="poll_read", self_adt=COND)
         sw = [si for si in pr.switches_on(lambda p, si: p is not None and p.fields[-1:] == ("closed",))]
